@@ -35,7 +35,9 @@ def summarize(r):
     """Observable summary of one analysis round."""
     if r is None:
         return None
-    return {"graph": r["graph_hash"], "nodes": r["graph_nodes"], "lines": r["graph_lines"], "meta": r["meta_hash"],
+    return {"graph": r["graph_hash"], "nodes": r["graph_nodes"], "lines": r["graph_lines"],
+            # every GenerateIntermediate of the round (before and after Validate, repeated) gave this set of results
+            "meta": sorted(set(r.get("meta_hashes") or [r["meta_hash"]])),
             "diags": sorted(map(str, map(diag_key, r["diags"]))), "errs": [r["graph_err"], r["validate_err"], r["intermediate_err"]],
             "panic": r["panic"]}
 
@@ -55,10 +57,12 @@ def main():
         projects = []
         for k in range(nproj):
             opts = {"multifile": True, "multipkg": True, "security": True, "params": True, "enums": True,
-                    "local_types": True}
+                    "local_types": True, "generics": True}
             p = P.gen_project(rng, opts)
             # several controllers per file in half of the projects
             p["shared_files"] = (k % 2 == 0)
+            # a controller in a file outside the globs (same package as the package-local types) in a third of the projects
+            p["ghost_controller"] = (k % 3 == 1)
             if k % 4 == 3:
                 # a rejected project: analysis of it must be idempotent too (diagnostics stable)
                 c = rng.choice(p["controllers"])
@@ -74,7 +78,10 @@ def main():
         root = os.path.join(moddir, "p%d" % k)
         P.render_project(p, root, "verifproj/p%d" % k)
         cfg = P.render_config(p, root, "verifproj/p%d" % k)
-        jobs.append({"dir": root, "config": cfg, "rounds": rounds, "fresh": True})
+        # call histories: not every session validates before it reduces, nor reduces only once
+        scripts = [["GVI", "GVI", "GVI", "GVI", "GVI", "GVI"], ["GIVI", "GVII", "GIV", "GVI", "IGVI", "GVI"],
+                   ["GVII", "GVI", "GIVI", "VI", "GVI", "GIIVI"]][k % 3][:rounds]
+        jobs.append({"dir": root, "config": cfg, "rounds": rounds, "fresh": True, "scripts": scripts})
     with concurrent.futures.ThreadPoolExecutor(max_workers=12) as ex:
         outs = list(ex.map(run_pipeline, jobs))
 
